@@ -128,7 +128,7 @@ func c02quote(s string) string {
 var c02newickAlpha = []string{"(", ")", ",", ":", ";", "[", "]", "A", "1", "1e", "/", " ", "\t", "\n", "\r", "\x00", "é"}
 
 var c02nexusAlpha = []string{"#NEXUS", "BEGIN", "DATA", "TAXA", "TAXLABELS", "TREES", "TREE", "TRANSLATE", "DIMENSIONS", "NTAX", "NCHAR", "FORMAT", "DATATYPE", "MISSING", "GAP", "MATRIX", "END",
-	";", "=", ",", "[", "]", "\n", "A", "1", "dna", "(A,B)", "-", "t=(A,B);"}
+	";", "=", ",", "[", "]", "\n", "A", "1", "dna", "(A,B)", "-", "t=(A,B);", "4444444444444444444"}
 
 var c02nexusPrefixes = []string{
 	"#NEXUS\n",
@@ -155,6 +155,8 @@ var c02corpus = map[string][]string{
 		"#NEXUS\nBEGIN TREES;\n TRANSLATE\n  1 A,\n  2 B,\n  3 C\n ;\n TREE t1 = (1:1,2:2,3:3);\nEND;\n",
 		"#NEXUS\n[a comment]\nBEGIN DATA;\n DIMENSIONS NTAX=2 NCHAR=4;\n FORMAT DATATYPE=dna MISSING=? GAP=-;\n MATRIX\n A ACGT\n B AC-?\n ;\nEND;\nBEGIN TREES;\n TREE t = (A,B);\nEND;\n",
 		"#NEXUS\nBEGIN UNKNOWN;\n FOO bar=1;\nEND;\nBEGIN TREES;\n TREE t = [&R] ((A,B),(C,D));\nEND;\n",
+		"#NEXUS\nBEGIN TREES;\n TREE a = (A,B,C);\n TREE b = (A,C,B);\nEND;\nBEGIN TREES;\n TREE c = (B,A,C);\nEND;\nBEGIN TREES;\nEND;\n",
+		"#NEXUS\nBEGIN DATA;\n DIMENSIONS NTAX=3 NCHAR=2;\n MATRIX\n A AC\n B AC\n C AG\n ;\nEND;\nBEGIN TREES;\n TREE t = (A,B,C);\nEND;\n",
 		"#NEXUS\r\nBEGIN TAXA;\r\nTAXLABELS A B [x] C;\r\nEND;\r\nBEGIN TREES;\r\nTREE 'my tree' = (A,B,C);\r\nEND;\r\n",
 	},
 	"phyloxml": {
@@ -176,7 +178,7 @@ var c02tokRe = map[string]*regexp.Regexp{
 
 var c02editAlpha = map[string][]string{
 	"newick":     {"(", ")", ",", ":", ";", "[", "]", "A", "1", " ", "\n"},
-	"nexus":      {"#NEXUS", "BEGIN", "END", "TREES", "TREE", "TAXA", "TRANSLATE", "FORMAT", "MISSING", "GAP", "DATATYPE", "MATRIX", ";", "=", ",", "[", "]", "\n", " ", "A"},
+	"nexus":      {"#NEXUS", "BEGIN", "END", "TREES", "TREE", "TAXA", "TRANSLATE", "FORMAT", "MISSING", "GAP", "DATATYPE", "MATRIX", ";", "=", ",", "[", "]", "\n", " ", "A", "4444444444444444444", "0", "-1"},
 	"phyloxml":   {"<clade", "</clade", "<name", "<phylogeny", "<branch_length", "<confidence", ">", "<", "\"", "x", "1"},
 	"nextstrain": {"{", "}", "[", "]", ":", ",", "\"", "\"v2\"", "\"children\"", "\"div\"", "1", "null"},
 }
